@@ -72,7 +72,14 @@ for op in GOPS:
     add("groupby(series).%s" % op, "groupby(series).%s" % op, lambda d, op=op: getattr(d.groupby(d.k).x, op)())
 for op in ("sum", "mean", "count"):
     add("groupby(col).%s[frame]" % op, "groupby(col).%s" % op, lambda d, op=op: getattr(d.groupby("k"), op)(), cols=XY)
+add("groupby([col]).sum", "groupby(col).sum", lambda d: d.groupby(["k"]).x.sum(), rank=1)
+add("groupby(series).sum[Series]", "groupby(series).sum", lambda d: d.x.groupby(d.k).sum())
+add("groupby(series).mean[Series]", "groupby(series).mean", lambda d: d.x.groupby(d.k).mean())
+add("groupby(x>1).sum", "groupby(series).sum", lambda d: d.groupby(d.x > 1).y.sum(), cols=XY, rank=1)
 GROUP = [k for k in SPECS if k.startswith("groupby(")]
+GROUP_COL = [k for k in GROUP if k.startswith("groupby(col)") and "[frame]" not in k]
+GROUP_MAIN = [k for k in GROUP if k.startswith(("groupby(col).", "groupby(series).")) and "[" not in k]
+GROUP_EXTRA = [k for k in GROUP if k not in GROUP_MAIN]
 
 # --- elementwise trees (depth <= 2 over +scalar, *column, comparison, [mask], [[cols]], assign) ---
 EXPRS = {
@@ -140,15 +147,19 @@ def plan(ctx):
         return [F.Suite(REDUCE_V, "v", {1: 2, 2: 2, 3: 2, 4: 2}),
                 F.Suite(REDUCE_SERIES, "v", {5: 2}),
                 F.Suite(REDUCE_K, "k", {1: 2, 2: 2, 3: 2, 4: 2, 5: 2}),
-                F.Suite(GROUP, "kv", {1: 2, 2: 2, 3: 2, 4: 1}),
+                F.Suite(GROUP, "kv", {1: 2, 2: 2, 3: 2}),
+                F.Suite(GROUP_COL, "kv", {4: 1}),
+                F.Suite([k for k in GROUP if k not in GROUP_COL], "kv3", {4: 1}),
                 F.Suite(PERBATCH, "kv", {1: 2, 2: 2, 3: 1}),
                 F.Suite(UNDER, "kv", {1: 2, 2: 2, 3: 2}),
                 F.Suite(UNDER, "kv3", {4: 1})]
     return [F.Suite(REDUCE_V, "v", {1: 1, 2: 1, 3: 1}),
             F.Suite(REDUCE_SERIES, "v", {4: 1}),
             F.Suite(REDUCE_K, "k", {1: 1, 2: 1, 3: 1, 4: 1}),
-            F.Suite(GROUP, "kv", {1: 1, 2: 1, 3: 0}),
-            F.Suite(GROUP, "kv3", {3: 1}),
+            F.Suite(GROUP, "kv", {1: 1, 2: 1}),
+            F.Suite(GROUP_MAIN, "kv", {3: 0}),
+            F.Suite(GROUP_MAIN, "kv3", {3: 1}),
+            F.Suite(GROUP_EXTRA, "kv3", {3: 0}),
             F.Suite(PERBATCH, "kv", {1: 1, 2: 1}),
             F.Suite(PERBATCH, "kv3", {3: 0}),
             F.Suite(UNDER_Q, "kv", {1: 1, 2: 1}),
